@@ -301,12 +301,103 @@ theorem stage_after_mpt (t r : Nat) (d : Db) :
     applyBatch (stageMpt t r) d Key.syncPoint = d Key.syncPoint := by
   simp [stageMpt, applyBatch, W.apply, Db.set, resetMptXfer]
 
-/-- **reset_resumable_partial.** Let `reset n t` (a real reset: some batches) succeed with batches `bs` and
-node `n'`. Then `bs = b1 :: b2 ++ [c3, c4, c5, c6, c7]` (sync point + first marker; block removal; storage
-copy; header reset; MPT + transfer reset; SeekGC; marker removal) and for the database after EACH complete
-stage: provided HeaderHashes.init succeeds on it (with the header height of the stopped node while headers
-are not yet reset), reopening resumes the reset and ends in exactly the database of the uninterrupted reset;
-the node is the uninterrupted one, except that after stage MPT/transfers its stateroot module is not ready. -/
+/-- the shape of a successful, non-trivial `reset`. -/
+theorem reset_unfold {H : Hist} {B S : Nat} {n n' : Node} {t : Nat} {bs : List Batch}
+    (h : reset H B S n t = .ok (bs, n')) (hbs : bs ≠ []) :
+    ∃ bs' D rdy, bs = ofWrites [(Key.syncPoint, some (Val.ptr t)), marker stJumpStarted] :: bs' ∧
+      resetFrom H B S t stNone n.hdrHeight (applyBatch (ofWrites [(Key.syncPoint, some (Val.ptr t)), marker stJumpStarted]) n.db) = .ok (bs', D, rdy) ∧
+      nodeAfterReset B t D rdy = .ok n' ∧ t ≤ n.height := by
+  unfold reset at h
+  split at h
+  · simp at h
+  · rename_i hle
+    split at h
+    · simp at h; exact absurd h.1 hbs
+    · simp only at h
+      split at h
+      · simp at h
+      · rename_i bs' D rdy hrf
+        split at h
+        · simp at h
+        · rename_i n'' hnar
+          simp at h
+          obtain ⟨rfl, rfl⟩ := h
+          exact ⟨bs', D, rdy, rfl, hrf, hnar, by omega⟩
+
+theorem nodeAfterReset_db {B t : Nat} {D : Db} {rdy : Bool} {n' : Node} (h : nodeAfterReset B t D rdy = .ok n') : n'.db = D := by
+  unfold nodeAfterReset at h
+  split at h
+  · simp at h
+  · split at h
+    · simp at h; subst h; rfl
+    · simp at h
+
+/-- **reset_resumable_partial**, with the stage batches named. -/
+theorem reset_resumable_concrete (H : Hist) {B S : Nat} (n n' : Node) (t : Nat) (bs : List Batch)
+    (hreset : reset H B S n t = .ok (bs, n')) (hbs : bs ≠ []) :
+    let b1 := ofWrites [(Key.syncPoint, some (Val.ptr t)), marker stJumpStarted]
+    let d1 := applyBatch b1 n.db
+    ∃ (b2 : List Batch) (d2 : Db) (cur x r : Nat) (p0 : Bool),
+      Reads t cur x r p0 d1 ∧ stageBlocks H S t cur d1 = .ok (b2, d2) ∧ d2 = foldBatches b2 d1 ∧
+      let c3 := stageCopy t p0 d2
+      let c4 := stageHeaders B t n.hdrHeight p0
+      let c5 := stageMpt t r
+      let c6 := stageGc p0
+      let d3 := applyBatch c3 d2
+      let d4 := applyBatch c4 d3
+      let d5 := applyBatch c5 d4
+      let d6 := applyBatch c6 d5
+      bs = b1 :: b2 ++ [c3, c4, c5, c6, stageDone] ∧
+      n'.db = applyBatch stageDone d6 ∧
+      (initHeaders B d1 = .ok n.hdrHeight → recover H B S d1 = .ok n') ∧
+      (initHeaders B d2 = .ok n.hdrHeight → recover H B S d2 = .ok n') ∧
+      (initHeaders B d3 = .ok n.hdrHeight → recover H B S d3 = .ok n') ∧
+      (∀ hh', initHeaders B d4 = .ok hh' → recover H B S d4 = .ok n') ∧
+      (∀ hh', initHeaders B d5 = .ok hh' → recover H B S d5 = .ok { n' with mptReady := false }) ∧
+      (∀ hh', initHeaders B d6 = .ok hh' → recover H B S d6 = .ok { n' with mptReady := false }) := by
+  intro b1 d1
+  obtain ⟨bs', D, rdy, hb, hrf, hnar, _⟩ := reset_unfold hreset hbs
+  obtain ⟨b2, d2, cur, x, r, p0, hr, hsb, hbs', hD, hrdy, g8, g4, g16, g32, g32'⟩ := reset_stage_idempotent (Or.inl rfl) hrf
+  subst hrdy
+  obtain ⟨hd2, hst2, hfix2⟩ := stageBlocks_spec hsb
+  have hst1 : d1 Key.stage = some (Val.stagev true stJumpStarted) := by
+    simp [d1, b1, applyBatch_ofWrites, applyWrites, marker]
+  have hsp1 : d1 Key.syncPoint = some (Val.ptr t) := by
+    simp [d1, b1, applyBatch_ofWrites, applyWrites, marker, Db.set]
+  have hsp2 : d2 Key.syncPoint = some (Val.ptr t) := by
+    rw [hfix2 _ (by rintro ⟨i, _, e | ⟨j, e⟩⟩ <;> simp at e) (by simp)]; exact hsp1
+  obtain ⟨hst3, hsp3⟩ := stage_after_copy t p0 d2
+  obtain ⟨hst4, hsp4⟩ := stage_after_headers B t n.hdrHeight p0 (applyBatch (stageCopy t p0 d2) d2)
+  obtain ⟨hst5, hsp5⟩ := stage_after_mpt t r (applyBatch (stageHeaders B t n.hdrHeight p0) (applyBatch (stageCopy t p0 d2) d2))
+  refine ⟨b2, d2, cur, x, r, p0, hr, hsb, hd2, by rw [hb, hbs']; rfl, ?_, ?_, ?_, ?_, ?_, ?_, ?_⟩
+  · rw [nodeAfterReset_db hnar, hD]
+  · intro hih
+    have hrf2 : resetFrom H B S t stJumpStarted n.hdrHeight d1 = .ok (bs', D, true) := by
+      rw [resetFrom_reads (by decide) hr]
+      rw [resetFrom_reads (by decide) hr] at hrf
+      simpa [stNone, stJumpStarted, stBlocksRemoved, stNewItems, stTransfersReset] using hrf
+    rw [recover_resume hr.ver hih hst1 hsp1 hrf2]; exact hnar
+  · intro hih
+    obtain ⟨_, _, _, _, p, hr'⟩ := resetFrom_inv g8
+    rw [recover_resume hr'.ver hih hst2 hsp2 g8]; exact hnar
+  · intro hih
+    obtain ⟨_, _, _, _, p, hr'⟩ := resetFrom_inv g4
+    rw [recover_resume hr'.ver hih hst3 (hsp3.trans hsp2) g4]; exact hnar
+  · intro hh' hih
+    obtain ⟨_, _, _, _, p, hr'⟩ := resetFrom_inv (g16 hh')
+    rw [recover_resume hr'.ver hih hst4 (hsp4.trans (hsp3.trans hsp2)) (g16 hh')]; exact hnar
+  · intro hh' hih
+    obtain ⟨_, _, _, _, p, hr'⟩ := resetFrom_inv (g32 hh')
+    rw [recover_resume hr'.ver hih hst5 (hsp5.trans (hsp4.trans (hsp3.trans hsp2))) (g32 hh')]
+    exact nodeAfterReset_ready hnar false
+  · intro hh' hih
+    obtain ⟨_, _, _, _, p, hr'⟩ := resetFrom_inv (g32' hh')
+    have e1 := stageGc_apply p0 (applyBatch (stageMpt t r) (applyBatch (stageHeaders B t n.hdrHeight p0) (applyBatch (stageCopy t p0 d2) d2))) Key.stage (by simp)
+    have e2 := stageGc_apply p0 (applyBatch (stageMpt t r) (applyBatch (stageHeaders B t n.hdrHeight p0) (applyBatch (stageCopy t p0 d2) d2))) Key.syncPoint (by simp)
+    rw [recover_resume hr'.ver hih (e1.trans hst5) (e2.trans (hsp5.trans (hsp4.trans (hsp3.trans hsp2)))) (g32' hh')]
+    exact nodeAfterReset_ready hnar false
+
+/-- the same with the batches left abstract (the form quoted in Props/C02.lean). -/
 theorem reset_resumable_partial_aux (H : Hist) {B S : Nat} (n n' : Node) (t : Nat) (bs : List Batch)
     (hreset : reset H B S n t = .ok (bs, n')) (hbs : bs ≠ []) :
     ∃ (b1 : Batch) (b2 : List Batch) (c3 c4 c5 c6 c7 : Batch),
@@ -323,74 +414,115 @@ theorem reset_resumable_partial_aux (H : Hist) {B S : Nat} (n n' : Node) (t : Na
         recover H B S (applyBatch c5 (applyBatch c4 (applyBatch c3 (foldBatches b2 (applyBatch b1 n.db))))) = .ok { n' with mptReady := false }) ∧
       (∀ hh', initHeaders B (applyBatch c6 (applyBatch c5 (applyBatch c4 (applyBatch c3 (foldBatches b2 (applyBatch b1 n.db)))))) = .ok hh' →
         recover H B S (applyBatch c6 (applyBatch c5 (applyBatch c4 (applyBatch c3 (foldBatches b2 (applyBatch b1 n.db)))))) = .ok { n' with mptReady := false }) := by
-  unfold reset at hreset
-  split at hreset
-  · simp at hreset
-  · split at hreset
-    · simp at hreset; exact absurd hreset.1 hbs
-    · simp only at hreset
-      split at hreset
-      · simp at hreset
-      · rename_i bs' D rdy hrf
-        split at hreset
-        · simp at hreset
-        · rename_i n'' hnar
-          simp at hreset
-          obtain ⟨rfl, rfl⟩ := hreset
-          obtain ⟨b2, d2, cur, x, r, p0, hr, hsb, hbs', hD, hrdy, g8, g4, g16, g32, g32'⟩ := reset_stage_idempotent (Or.inl rfl) hrf
-          subst hrdy
-          obtain ⟨hd2, hst2, hfix2⟩ := stageBlocks_spec hsb
-          -- the first batch
-          have hst1 : applyBatch (ofWrites [(Key.syncPoint, some (Val.ptr t)), marker stJumpStarted]) n.db Key.stage = some (Val.stagev true stJumpStarted) := by
-            simp [applyBatch_ofWrites, applyWrites, marker]
-          have hsp1 : applyBatch (ofWrites [(Key.syncPoint, some (Val.ptr t)), marker stJumpStarted]) n.db Key.syncPoint = some (Val.ptr t) := by
-            simp [applyBatch_ofWrites, applyWrites, marker, Db.set]
-          have hsp2 : d2 Key.syncPoint = some (Val.ptr t) := by
-            rw [hfix2 _ (by rintro ⟨i, _, e | ⟨j, e⟩⟩ <;> simp at e) (by simp)]; exact hsp1
-          obtain ⟨hst3, hsp3⟩ := stage_after_copy t p0 d2
-          obtain ⟨hst4, hsp4⟩ := stage_after_headers B t n.hdrHeight p0 (applyBatch (stageCopy t p0 d2) d2)
-          obtain ⟨hst5, hsp5⟩ := stage_after_mpt t r (applyBatch (stageHeaders B t n.hdrHeight p0) (applyBatch (stageCopy t p0 d2) d2))
-          have hnd : nodeAfterReset B t D true = .ok n'' := hnar
-          refine ⟨_, b2, _, _, _, _, _, by rw [hbs']; rfl, ?_, ?_, ?_, ?_, ?_, ?_, ?_⟩
-          · -- final database
-            have : n''.db = D := by
-              unfold nodeAfterReset at hnar
-              split at hnar
-              · simp at hnar
-              · split at hnar
-                · simp at hnar; subst hnar; rfl
-                · simp at hnar
-            rw [this, hD, hd2]
-          · intro hih
-            have hrf2 : resetFrom H B S t stJumpStarted n.hdrHeight (applyBatch (ofWrites [(Key.syncPoint, some (Val.ptr t)), marker stJumpStarted]) n.db) = .ok (bs', D, true) := by
-              obtain ⟨hv, _⟩ := resetFrom_inv hrf
-              rw [resetFrom_reads (by decide) hr]
-              rw [resetFrom_reads (by decide) hr] at hrf
-              simpa [stNone, stJumpStarted, stBlocksRemoved, stNewItems, stTransfersReset] using hrf
-            rw [recover_resume hr.ver hih hst1 hsp1 hrf2]; exact hnd
-          · intro hih
-            rw [← hd2] at hih ⊢
-            obtain ⟨_, _, _, _, p, hr'⟩ := resetFrom_inv g8
-            rw [recover_resume hr'.ver hih hst2 hsp2 g8]; exact hnd
-          · intro hih
-            rw [← hd2] at hih ⊢
-            obtain ⟨_, _, _, _, p, hr'⟩ := resetFrom_inv g4
-            rw [recover_resume hr'.ver hih hst3 (hsp3.trans hsp2) g4]; exact hnd
-          · intro hh' hih
-            rw [← hd2] at hih ⊢
-            obtain ⟨_, _, _, _, p, hr'⟩ := resetFrom_inv (g16 hh')
-            rw [recover_resume hr'.ver hih hst4 (hsp4.trans (hsp3.trans hsp2)) (g16 hh')]; exact hnd
-          · intro hh' hih
-            rw [← hd2] at hih ⊢
-            obtain ⟨_, _, _, _, p, hr'⟩ := resetFrom_inv (g32 hh')
-            rw [recover_resume hr'.ver hih hst5 (hsp5.trans (hsp4.trans (hsp3.trans hsp2))) (g32 hh')]
-            exact nodeAfterReset_ready hnd false
-          · intro hh' hih
-            rw [← hd2] at hih ⊢
-            obtain ⟨_, _, _, _, p, hr'⟩ := resetFrom_inv (g32' hh')
-            have e1 := stageGc_apply p0 (applyBatch (stageMpt t r) (applyBatch (stageHeaders B t n.hdrHeight p0) (applyBatch (stageCopy t p0 d2) d2))) Key.stage (by simp)
-            have e2 := stageGc_apply p0 (applyBatch (stageMpt t r) (applyBatch (stageHeaders B t n.hdrHeight p0) (applyBatch (stageCopy t p0 d2) d2))) Key.syncPoint (by simp)
-            rw [recover_resume hr'.ver hih (e1.trans hst5) (e2.trans (hsp5.trans (hsp4.trans (hsp3.trans hsp2)))) (g32' hh')]
-            exact nodeAfterReset_ready hnd false
+  obtain ⟨b2, d2, cur, x, r, p0, _, _, hd2, hbs', hdb, h1, h2, h3, h4, h5, h6⟩ := reset_resumable_concrete H n n' t bs hreset hbs
+  subst hd2
+  exact ⟨_, b2, _, _, _, _, _, hbs', hdb, h1, h2, h3, h4, h5, h6⟩
+
+
+theorem firstMissing_congr (db db' : Db) (lo n : Nat) (h : ∀ i, db' (Key.exec i) = db (Key.exec i)) :
+    firstMissing db' lo n = firstMissing db lo n := by
+  induction n with
+  | zero => rfl
+  | succ n ih => simp only [firstMissing, ih, h]
+
+/-- HeaderHashes.init only looks at the header pointer, the pages and the records. -/
+theorem initHeaders_congr (B : Nat) (db db' : Db) (h1 : db' Key.curHeader = db Key.curHeader)
+    (h2 : ∀ q, db' (Key.page q) = db (Key.page q)) (h3 : ∀ i, db' (Key.exec i) = db (Key.exec i)) :
+    initHeaders B db' = initHeaders B db := by
+  simp only [initHeaders, h1, h2, firstMissing_congr db db' _ _ h3]
+
+theorem page_below_stored {B q t : Nat} (hB : 0 < B) (hq : q % B = 0) (hle : q + B ≤ t + 1) : q < (t + 1) / B * B := by
+  obtain ⟨m, rfl⟩ : ∃ m, q = m * B := ⟨q / B, by have := Nat.div_add_mod q B; rw [hq] at this; simp at this; rw [Nat.mul_comm] at this; exact this.symm⟩
+  have h1 : (m + 1) * B ≤ t + 1 := by rw [Nat.add_mul]; simpa using hle
+  have h2 : m + 1 ≤ (t + 1) / B := (Nat.le_div_iff_mul_le hB).mpr h1
+  have h3 : (m + 1) * B ≤ (t + 1) / B * B := Nat.mul_le_mul_right B h2
+  rw [Nat.add_mul] at h3
+  omega
+
+
+theorem not_rm_le {t i : Nat} (h : i ≤ t) : ¬ RmKey t (Key.exec i) := by
+  rintro ⟨j, hj, e | ⟨x, e⟩⟩ <;> simp at e; omega
+
+theorem not_rm_page (t q : Nat) : ¬ RmKey t (Key.page q) := by
+  rintro ⟨j, hj, e | ⟨x, e⟩⟩ <;> simp at e
+
+theorem not_rm_curHeader (t : Nat) : ¬ RmKey t Key.curHeader := by
+  rintro ⟨j, hj, e | ⟨x, e⟩⟩ <;> simp at e
+
+/-- **on a consistent stopped node the reset resumes from every complete stage except the two
+between block removal and header reset.** -/
+theorem reset_resumable_of_inv (H : Hist) {B S : Nat} (hB : 1 < B) (n n' : Node) (hn : Inv H B n) (hc : n.cache = [])
+    (t : Nat) (bs : List Batch) (hreset : reset H B S n t = .ok (bs, n')) (hbs : bs ≠ []) :
+    let b1 := ofWrites [(Key.syncPoint, some (Val.ptr t)), marker stJumpStarted]
+    let d1 := applyBatch b1 n.db
+    ∃ (b2 : List Batch) (d2 : Db) (cur x r : Nat) (p0 : Bool),
+      stageBlocks H S t cur d1 = .ok (b2, d2) ∧ d2 = foldBatches b2 d1 ∧
+      let c3 := stageCopy t p0 d2
+      let c4 := stageHeaders B t n.hdrHeight p0
+      let c5 := stageMpt t r
+      let c6 := stageGc p0
+      let d4 := applyBatch c4 (applyBatch c3 d2)
+      let d5 := applyBatch c5 d4
+      let d6 := applyBatch c6 d5
+      bs = b1 :: b2 ++ [c3, c4, c5, c6, stageDone] ∧
+      n'.db = applyBatch stageDone d6 ∧
+      recover H B S d1 = .ok n' ∧ recover H B S d4 = .ok n' ∧
+      recover H B S d5 = .ok { n' with mptReady := false } ∧ recover H B S d6 = .ok { n' with mptReady := false } := by
+  intro b1 d1
+  obtain ⟨_, _, _, _, _, _, hle⟩ := reset_unfold hreset hbs
+  obtain ⟨b2, d2, cur, x, r, p0, hr, hsb, hd2, hbs', hdb, h1, _, _, h4, h5, h6⟩ := reset_resumable_concrete H n n' t bs hreset hbs
+  obtain ⟨_, _, hfix2⟩ := stageBlocks_spec hsb
+  have hv : n.view = n.db := by simp [Node.view, hc, applyWrites]
+  have hch := hn.ch; have hex := hn.ex; have hpg := hn.pg
+  rw [hv] at hch hex hpg
+  have hd1 : ∀ k, k ≠ Key.syncPoint → k ≠ Key.stage → applyBatch (ofWrites [(Key.syncPoint, some (Val.ptr t)), marker stJumpStarted]) n.db k = n.db k := by
+    intro k h1 h2
+    apply applyBatch_fixes
+    apply ofWrites_fixes
+    intro p hp e
+    simp [marker] at hp
+    rcases hp with rfl | rfl
+    · exact h1 e.symm
+    · exact h2 e.symm
+  have i1 : initHeaders B (applyBatch (ofWrites [(Key.syncPoint, some (Val.ptr t)), marker stJumpStarted]) n.db) = .ok n.hdrHeight := by
+    rw [initHeaders_congr B n.db (applyBatch (ofWrites [(Key.syncPoint, some (Val.ptr t)), marker stJumpStarted]) n.db) (hd1 _ (by simp) (by simp)) (fun q => hd1 _ (by simp) (by simp)) (fun i => hd1 _ (by simp) (by simp))]
+    exact initHeaders_of_inv n.db n.hdrHeight hch hex hpg
+  -- the database after the header reset
+  have hd3 : ∀ k, (∀ p q, k ≠ Key.stor p q) → k ≠ Key.stage → applyBatch (stageCopy t p0 d2) d2 k = d2 k :=
+    fun k h1 h2 => applyBatch_fixes _ _ _ (stageCopy_fixes t p0 d2 k h1 h2)
+  have e4h : applyBatch (stageHeaders B t n.hdrHeight p0) (applyBatch (stageCopy t p0 d2) d2) Key.curHeader = some (Val.ptr t) := by
+    simp [stageHeaders, applyBatch, W.apply, Db.set]
+  have e4e : ∀ i, i ≤ t → applyBatch (stageHeaders B t n.hdrHeight p0) (applyBatch (stageCopy t p0 d2) d2) (Key.exec i) = n.db (Key.exec i) := by
+    intro i hi
+    have : ¬ (t < i ∧ i ≤ n.hdrHeight) := by omega
+    simp only [stageHeaders, applyBatch, W.apply, Db.set, purgeHeaders]
+    simp [this]
+    rw [hd3 _ (by simp) (by simp), hfix2 _ (not_rm_le hi) (by simp), hd1 _ (by simp) (by simp)]
+  have e4p : ∀ q, q < (t + 1) / B * B → applyBatch (stageHeaders B t n.hdrHeight p0) (applyBatch (stageCopy t p0 d2) d2) (Key.page q) = n.db (Key.page q) := by
+    intro q hq
+    have : ¬ (q ≥ (t + 1) / B * B) := by omega
+    simp only [stageHeaders, applyBatch, W.apply, Db.set, purgeHeaders]
+    simp [this]
+    rw [hd3 _ (by simp) (by simp), hfix2 _ (not_rm_page t q) (by simp), hd1 _ (by simp) (by simp)]
+  have hthh : t ≤ n.hdrHeight := Nat.le_trans hle hn.le
+  have i4 : initHeaders B (applyBatch (stageHeaders B t n.hdrHeight p0) (applyBatch (stageCopy t p0 d2) d2)) = .ok t := by
+    apply initHeaders_of_inv _ t e4h
+    · intro i hi; rw [e4e i hi]; exact hex i (by omega)
+    · intro q hq hle'
+      rw [e4p q (page_below_stored (by omega) hq hle')]
+      exact hpg q hq (by omega)
+  have i5 : initHeaders B (applyBatch (stageMpt t r) (applyBatch (stageHeaders B t n.hdrHeight p0) (applyBatch (stageCopy t p0 d2) d2))) = .ok t := by
+    rw [initHeaders_congr B (applyBatch (stageHeaders B t n.hdrHeight p0) (applyBatch (stageCopy t p0 d2) d2))]
+    · exact i4
+    · simp [stageMpt, applyBatch, W.apply, Db.set, resetMptXfer]
+    · intro q; simp [stageMpt, applyBatch, W.apply, Db.set, resetMptXfer]
+    · intro i; simp [stageMpt, applyBatch, W.apply, Db.set, resetMptXfer]
+  have i6 : initHeaders B (applyBatch (stageGc p0) (applyBatch (stageMpt t r) (applyBatch (stageHeaders B t n.hdrHeight p0) (applyBatch (stageCopy t p0 d2) d2)))) = .ok t := by
+    rw [initHeaders_congr B (applyBatch (stageMpt t r) (applyBatch (stageHeaders B t n.hdrHeight p0) (applyBatch (stageCopy t p0 d2) d2)))]
+    · exact i5
+    · exact stageGc_apply _ _ _ (by simp)
+    · intro q; exact stageGc_apply _ _ _ (by simp)
+    · intro i; exact stageGc_apply _ _ _ (by simp)
+  exact ⟨b2, d2, cur, x, r, p0, hsb, hd2, hbs', hdb, h1 i1, h4 t i4, h5 t i5, h6 t i6⟩
 
 end NeoModel.Persist
